@@ -588,6 +588,17 @@ where
         ctx.label("representations_compared");
         comparing(false);
     }
+    if ctx.param == 3 {
+        // C03 for the generic models the library builds by conversion
+        let gd = m.to_generic_decoder_model();
+        let tg = table_from_iter::<_, P>(&gd, kusize);
+        check_tiling(&tg, "C03", &format!("generic decoder model of {what}"))?;
+        check_decoder::<_, P>(&gd, &tg, &qs, kusize, "C03", &format!("generic decoder model of {what}"))?;
+        let ge = m.to_generic_encoder_model();
+        let te = table_from_encoder::<_, P>(&ge, 0..n, kusize, "C03", &format!("generic encoder model of {what}"))?;
+        check_tiling(&te, "C03", &format!("generic encoder model of {what}"))?;
+        check_outside::<_, P>(&ge, &[n, n + 1, usize::MAX], kusize, "C03", &format!("generic encoder model of {what}"))?;
+    }
     if ctx.param == 18 {
         diagnostics::<_, P>(m, &t, src, ctx, what)?;
         // the non-contiguous decoder model overrides entropy_base2 and floating_point_symbol_table; the
@@ -827,6 +838,20 @@ macro_rules! lookup_conversions {
             tables_equal(&$t, &table_from_iter::<_, $P>(&owned, $kusize), "searched model", "generic lookup into_non_contiguous_categorical")?;
             comparing(false);
             $ctx.label("lookup_conversions_compared");
+        }
+        if $mode == 3 {
+            // C03 for the models the library builds by conversion: each must be valid on its own terms
+            // (its iterated table tiles [0, 2^P) and its quantile function inverts that table)
+            let l = $m.to_lookup_decoder_model();
+            let tl = table_from_iter::<_, $P>(&l, $kusize);
+            check_tiling(&tl, "C03", &format!("to_lookup_decoder_model of {}", $what))?;
+            let qs = quantiles(&tl, $src, $ex, 32);
+            check_decoder::<_, $P>(&l, &tl, &qs, $kusize, "C03", &format!("to_lookup_decoder_model of {}", $what))?;
+            let g = $m.to_generic_lookup_decoder_model();
+            let tg = table_from_iter::<_, $P>(&g, $kusize);
+            check_tiling(&tg, "C03", &format!("to_generic_lookup_decoder_model of {}", $what))?;
+            check_decoder::<_, $P>(&g, &tg, &qs, $kusize, "C03", &format!("to_generic_lookup_decoder_model of {}", $what))?;
+            $ctx.label("converted_lookup_models_validated");
         }
         if $mode == 18 {
             let l = $m.to_lookup_decoder_model();
